@@ -240,6 +240,9 @@ func aFloats(n string, v []float32) attr { return attr{name: n, floats: v, kind:
 func (a attr) proto() *onnx.AttributeProto {
 	switch a.kind {
 	case "str":
+		if a.tp != nil { // a tensor attribute that cannot be decoded: printed for Coq as a string attribute of that name
+			return &onnx.AttributeProto{Name: a.name, T: a.tp, Type: onnx.AttributeProto_TENSOR}
+		}
 		return &onnx.AttributeProto{Name: a.name, S: []byte(*a.s), Type: onnx.AttributeProto_STRING}
 	case "strs":
 		var bs [][]byte
